@@ -1,4 +1,5 @@
 import XcpModel.Walker
+import XcpProofs.DerefTree
 import XcpProofs.WalkerLemmas
 /-! # C13 — `--dereference` copies what links point to, or fails; never leaves links or gaps
 
@@ -88,5 +89,54 @@ theorem cyclic_link_does_not_resolve :
     let root : Node := .dir [([83], .dir [([108], .link ⟨false, [.name [108]], false⟩)])]
     (Fs.stat ⟨root, []⟩ ⟨true, [.name [83], .name [108]], false⟩) = none := by
   decide
+
+
+/-- TREE LEVEL: with `--dereference`, copying whatever the source designates — through any symbolic links at, above or
+below it: links to files and to directories, nested, chains, relative or absolute, inside or outside the source — to a fresh
+target runs every operation successfully and leaves at the target exactly the tree SEEN THROUGH the links
+(`derefS`: every link replaced by what it resolves to, directories reached through links descended into), provided that
+tree exists (`derefS … = some s`: no dangling link, no loop, supported kinds) -/
+theorem destination_is_the_tree_seen_through_the_links (fs : Fs) (c : Cfg) (hd : c.dereference = true) (hn : c.noClobber = false)
+    (src tb : RPath) (s : SNode) (fuel : Nat)
+    (hwf : FsEq fs fs)
+    (hsrc : AbsNames src)
+    (hder : derefS fs (fuel + 1) src.names [] = some s)
+    (htb : PlainTarget fs tb) (hne : tb.names ≠ []) (habs : fs.root.getAt tb.names = none)
+    (hpar : ∃ es, fs.root.getAt tb.names.dropLast = some (.dir es))
+    (hlen : tb.names.length + fuel < 255) :
+    ∃ fs', execOps fs c (walkEntry fs c none src tb (fuel + 1) [] []) = ⟨.ok, fs'⟩ ∧
+      FsEq fs' { fs with root := fs.root.setAt tb.names s.erase } ∧
+      ∀ q x, fs'.root.getAt (tb.names ++ q) = some x → x.isLink = false := by
+  obtain ⟨fs', hex, heq⟩ := mirror_fresh_deref fs c hd hn src tb s fuel hwf hsrc hder htb hne habs hpar hlen
+  obtain ⟨fs'', hex', hnl⟩ := no_link_in_destination fs c hd hn src tb s fuel hwf hsrc hder htb hne habs hpar hlen
+  rw [hex] at hex'
+  injection hex' with _ hfs
+  subst hfs
+  exact ⟨fs', hex, heq, hnl⟩
+
+/-- … each link REPLACED by what it points to: the tree left at the target is related to the source node by `Derefs`
+(files and special nodes unchanged, directories entry by entry, a link by the dereferenced node its `stat` finds) -/
+theorem every_link_is_replaced_by_its_target (fs : Fs) (c : Cfg) (hd : c.dereference = true) (hn : c.noClobber = false)
+    (src tb : RPath) (s : SNode) (fuel : Nat) (loc : List Name) (srcNode : Node)
+    (hwf : FsEq fs fs)
+    (hsrc : AbsNames src) (hsl : fs.lstat src = some (loc, srcNode))
+    (hder : derefS fs (fuel + 1) src.names [] = some s)
+    (htb : PlainTarget fs tb) (hne : tb.names ≠ []) (habs : fs.root.getAt tb.names = none)
+    (hpar : ∃ es, fs.root.getAt tb.names.dropLast = some (.dir es))
+    (hlen : tb.names.length + fuel < 255) :
+    ∃ fs' m, execOps fs c (walkEntry fs c none src tb (fuel + 1) [] []) = ⟨.ok, fs'⟩ ∧
+      Derefs fs loc srcNode m ∧
+      FsEq fs' { fs with root := fs.root.setAt tb.names m } ∧
+      ∀ q x, fs'.root.getAt (tb.names ++ q) = some x → x.isLink = false :=
+  mirror_fresh_deref_replaced fs c hd hn src tb s fuel loc srcNode hwf hsrc hsl hder htb hne habs hpar hlen
+
+/-- … or the run FAILS: when the tree seen through the links does not exist (a dangling link, a loop, a chain beyond the
+resolution limit, an unsupported kind), the run exits non-zero — never a gap, never a link left -/
+theorem no_tree_through_the_links_means_failure (fs : Fs) (c : Cfg) (hd : c.dereference = true) (hn : c.noClobber = false)
+    (hroot : fs.root.isLink = false) (hsk : SpecialKindsOk fs.root) (src tb : RPath)
+    (hsrc : AbsNames src) (htb : AbsNames tb) (fuel : Nat)
+    (h : derefS fs fuel src.names [] = none) :
+    (execOps fs c (walkEntry fs c none src tb fuel [] [])).exit = .err :=
+  run_fails_of_no_tree fs c hd hn hroot hsk src tb hsrc htb fuel h
 
 end Xcp.C13
